@@ -41,9 +41,15 @@ def evaluate(cand, name):
         rc, o = sh([PY, "-m", "pytest", "-q", "-p", "no:cacheprovider", "-x"], cwd=b)
         out["tests_pass"] = rc == 0 and "57 passed" in o
         eq = os.path.join(cand, "equiv.py")
+        eq2 = os.path.join(cand, "equiv_test.py")
         if os.path.exists(eq) and not os.environ.get("SKIP_EQUIV"):
             rc, o = sh([PY, eq, a, b], cwd=tempfile.gettempdir())
             out["equivalent"] = rc == 0 and "SAME" in o
+            out["equiv_tail"] = "\n".join(o.strip().splitlines()[-2:])
+        elif os.path.exists(eq2) and not os.environ.get("SKIP_EQUIV"):
+            # feature-shaped twins: equiv_test.py <patched> <clean> prints PASS
+            rc, o = sh([PY, eq2, b, a], cwd=tempfile.gettempdir())
+            out["equivalent"] = rc == 0 and "PASS" in o
             out["equiv_tail"] = "\n".join(o.strip().splitlines()[-2:])
         else:
             out["equivalent"] = None
@@ -72,12 +78,12 @@ def main():
     else:
         root = args[0]
         for r in sorted(os.listdir(root)):
-            if not r.startswith("R") or not os.path.isdir(os.path.join(root, r)):
+            if not r.startswith(("R", "C")) or not os.path.isdir(os.path.join(root, r)):
                 continue
             for k in sorted(os.listdir(os.path.join(root, r))):
                 p = os.path.join(root, r, k)
                 if os.path.exists(os.path.join(p, "patch.diff")):
-                    cands.append((p, "%s-%s%s" % (r, k, os.environ.get("ID_SUFFIX", ""))))
+                    cands.append((p, "%s-%s%s" % (("F" + r[1:]) if r.startswith("C") else r, k, os.environ.get("ID_SUFFIX", ""))))
     only = os.environ.get("ONLY")
     if only:
         cands = [c for c in cands if c[1].split("-")[0] in only.split(",") or c[1] in only.split(",")]
@@ -92,10 +98,10 @@ def main():
         if install and ok and not any(a["exit"] == 1 for a in r.get("alarms", {}).values()):
             dst = os.path.join(VERIF, "twins", r["id"])
             os.makedirs(dst, exist_ok=True)
-            for fn in ("patch.diff", "equiv.py", "notes.md"):
+            for fn in ("patch.diff", "equiv.py", "equiv_test.py", "notes.md"):
                 if os.path.exists(os.path.join(r["dir"], fn)):
                     shutil.copy(os.path.join(r["dir"], fn), os.path.join(dst, fn))
-            json.dump({"id": r["id"], "kind": "behaviour-preserving refactoring by an independent sub-agent", "confirmed": ["applies to HEAD", "57 tests pass", "equiv.py prints SAME"],
+            json.dump({"id": r["id"], "kind": "behaviour-preserving refactoring by an independent sub-agent", "confirmed": ["applies to HEAD", "57 tests pass", "the differential test against the pinned tree reports no difference"],
                        "undecided_at_install": sorted(c for c, a in r.get("alarms", {}).items() if a["exit"] == 2),
                        "alarms_at_install": r.get("alarms", {})}, open(os.path.join(dst, "meta.json"), "w"), indent=1)
 
